@@ -105,7 +105,7 @@ Definition strchr_s (c : cfg) (dest dmax ch resultp destbos : Z) : prog Z :=
     if dest =? 0 then hfail HStr ESNULLP
     else if dmax =? 0 then hfail HStr ESZEROL
     else chk_max_ovr HStr (rmax_str c) dmax destbos (fun _ =>
-      if 255 <? sx32 ch then hfail HStr ESLEMAX
+      if 255 <? sx32 (ch mod 4294967296) then hfail HStr ESLEMAX
       else strchr_m (Z.to_nat (rmax_str c + 2)) dest ch (fun r =>
         Store 8 resultp r (
           if r =? 0 then Ret ESNOTFND
@@ -119,7 +119,7 @@ Definition memchr_s (c : cfg) (dest dmax ch resultp destbos : Z) : prog Z :=
     if dest =? 0 then hfail HMem ESNULLP
     else if dmax =? 0 then hfail HMem ESZEROL
     else chk_max_ovr HMem (rmax_mem c) dmax destbos (fun _ =>
-      if 255 <? sx32 ch then hfail HStr ESLEMAX
+      if 255 <? sx32 (ch mod 4294967296) then hfail HStr ESLEMAX
       else memchr_m (Z.to_nat dmax) dest ch (fun r => Store 8 resultp r (if r =? 0 then Ret ESNOTFND else Ret EOK)))).
 Definition memrchr_core (c : cfg) (dest dmax ch resultp destbos : Z) : prog Z :=
   if resultp =? 0 then hfail HStr ESNULLP
@@ -127,7 +127,7 @@ Definition memrchr_core (c : cfg) (dest dmax ch resultp destbos : Z) : prog Z :=
     if dest =? 0 then hfail HMem ESNULLP
     else if dmax =? 0 then hfail HMem ESZEROL
     else chk_max_ovr HMem (rmax_mem c) dmax destbos (fun _ =>
-      if 255 <? sx32 ch then hfail HStr ESLEMAX
+      if 255 <? sx32 (ch mod 4294967296) then hfail HStr ESLEMAX
       else memrchr_m (Z.to_nat dmax) dest ch (fun r => Store 8 resultp r (if r =? 0 then Ret ESNOTFND else Ret EOK)))).
 Definition memrchr_s := memrchr_core.
 
@@ -138,7 +138,7 @@ Definition strrchr_s (c : cfg) (dest dmax ch resultp destbos : Z) : prog Z :=
     if dest =? 0 then hfail HStr ESNULLP
     else if dmax =? 0 then hfail HStr ESZEROL
     else chk_max_ovr HStr (rmax_str c) dmax destbos (fun _ =>
-      if 255 <? sx32 ch then hfail HStr ESLEMAX
+      if 255 <? sx32 (ch mod 4294967296) then hfail HStr ESLEMAX
       else
         len <- strnlen_s_prog c dest dmax BOS_UNKNOWN ;;
         if len =? 0 then Ret ESZEROL
@@ -239,10 +239,11 @@ Fixpoint first_loop (same : bool) (n : nat) (d s i resultp : Z) : prog Z :=
   end)).
 Definition strfirst_s (same : bool) (c : cfg) (dest dmax src resultp destbos : Z) : prog Z :=
   if resultp =? 0 then hfail HStr ESNULLP
-  else if dest =? 0 then hfail HStr ESNULLP
-  else if src =? 0 then hfail HStr ESNULLP
-  else if dmax =? 0 then hfail HStr ESZEROL
-  else chk_max_ovr HStr (rmax_str c) dmax destbos (fun _ => first_loop same (Z.to_nat dmax) dest src 0 resultp).
+  else Store 8 resultp 0 (
+    if dest =? 0 then hfail HStr ESNULLP
+    else if src =? 0 then hfail HStr ESNULLP
+    else if dmax =? 0 then hfail HStr ESZEROL
+    else chk_max_ovr HStr (rmax_str c) dmax destbos (fun _ => first_loop same (Z.to_nat dmax) dest src 0 resultp)).
 Definition strfirstdiff_s := strfirst_s false.
 Definition strfirstsame_s := strfirst_s true.
 
